@@ -53,7 +53,7 @@ def gen_mtbdd_history(rng, nsteps, full):
                 live[d] = live[h]
             elif kind < 0.55 or not full:
                 g = rng.choice(hs)
-                if rng.random() < 0.8:
+                if rng.random() < 0.7:
                     steps.append(["apply2", d, rng.choice(["plus", "max", "times", "left"]), h, g])
                     live[d] = max(live[h], live[g])
                 else:
@@ -201,7 +201,7 @@ def check_C17(tier, seed, res, replay=None):
     if replay:
         return do_replay(res, rd, replay)
     rng = random.Random(seed)
-    n, steps = (5000, 50) if tier == "thorough" else (1000, 30)
+    n, steps = (20000, 50) if tier == "thorough" else (3000, 30)
     cases = []
     for i in range(n):
         c = gen_mtbdd_history(rng, rng.randint(steps // 2, steps), full=True)
